@@ -94,6 +94,8 @@ def sched_parts(pid: str, tier: str):
         mk("whole-run-N3", Cfg(N=3, resources="tma", flavours="sa", routes="dac", monitors=mons), base_req, 600)
         mk("whole-run-N3-nested", Cfg(N=3, resources="tma", max_async=1, nested=True, sym_seq=False, monitors=mons), base_req, 600)
         mk("whole-run-N3-selection", Cfg(N=3, resources="tm", selection=True, sym_seq=False, monitors=mons), base_req, 600)
+        # a leaf may be a debug node (RUN_DEBUG_NODES on): debug nodes count against the limit like every pooled node
+        mk("whole-run-N3-debug-leaf", Cfg(N=3, resources="t", debug_leaf=True, sym_prio=True, sym_seq=False, monitors=mons), base_req, 600)
         mk("setup-run-N3-selection", Cfg(N=3, resources="tm", selection=True, sym_seq=False, setup_call=True, monitors=mons), ["w_returned", "w_setup_call", "w_parallel"], 600)
         from harness.history import HCfg, run_c11
 
@@ -108,6 +110,8 @@ def sched_parts(pid: str, tier: str):
         mk("whole-run-N3-nested", Cfg(N=3, resources="tm", nested=True, monitors=mons), base_req, 600)
         # sub-graph executions (executor selections, DAG.setup) read the same flags
         mk("whole-run-N3-selection", Cfg(N=3, resources="t", selection=True, monitors=mons), base_req, 600)
+        # a leaf may be a debug node (RUN_DEBUG_NODES on) and, like every node, sequential
+        mk("whole-run-N3-debug-leaf", Cfg(N=3, resources="t", debug_leaf=True, monitors=mons), base_req, 600)
         # an earlier call before the reconfiguration: what that call cached must not outlive config_from_dict
         mk("whole-run-N3-warmup-reconf", Cfg(N=3, resources="t", routes="cs", warmup=True, monitors=mons), base_req + ["w_warmup"], 600)
         mk("setup-run-N3-selection", Cfg(N=3, resources="tm", selection=True, setup_call=True, monitors=mons), ["w_returned", "w_setup_call", "w_parallel"], 600)
@@ -262,7 +266,7 @@ def graph_parts(pid: str, tier: str):
     parts = []
     if pid == "C07":
         parts.append(Part("table-N4-labelings", P(run_c07, GCfg(N=4, relabel=True, debug=False, selection=False, reconf=False)), {"N": 4, "labelings": 24, "priorities": "unbounded Int"}, 600, 5, ["w_diamond"], GRAPH_FUNCS))
-        parts.append(Part("table-N4-reconf-selection", P(run_c07, GCfg(N=4, relabel=False, debug=False, rebuild=False)), {"N": 4, "priorities": "unbounded Int", "selection": "whole/target/exclude/root x node", "reconfiguration": "none, all nodes or one node"}, 600, 5, ["w_diamond", "w_reconfigured", "w_subgraph"], GRAPH_FUNCS))
+        parts.append(Part("table-N4-reconf-selection", P(run_c07, GCfg(N=4, relabel=False, debug=False, rebuild=False)), {"N": 4, "priorities": "unbounded Int", "selection": "whole/target/exclude/root x node", "reconfiguration": "none, all nodes, one node, the shared tag, all nodes together with max_concurrency=0 (refused or not, the table follows the nodes' priorities)"}, 600, 5, ["w_diamond", "w_reconfigured", "w_subgraph", "w_reconfigured_with_invalid_limit"], GRAPH_FUNCS))
         parts.append(Part("table-N4-insertion-orders", P(run_c07, GCfg(N=4, relabel=False, debug=False, selection=False, reconf=False, rebuild=True)), {"N": 4, "insertion orders": 24, "how": "DAG(exec_nodes=...) with permuted node table; compose()"}, 600, 5, ["w_rebuilt", "w_diamond"], GRAPH_FUNCS))
         parts.append(Part("table-N3-debug", P(run_c07, GCfg(N=3, relabel=False, debug=True)), {"N": 3, "debug": "one debug leaf, RUN_DEBUG_NODES on/off"}, 600, 5, ["w_debug_in_subgraph"], GRAPH_FUNCS))
         parts.append(Part("order-mc1-N3", P(run_sched, Cfg(N=3, resources="t", sym_prio=True, sym_seq=False, routes="dc", mc_fixed=1, distinct_cp=True, monitors=("C06",))), {"N": 3, "max_concurrency": 1, "assumption": "compound priorities pairwise distinct"}, 600, 6, ["w_returned"], SCHED_FUNCS))
@@ -284,7 +288,7 @@ def graph_parts(pid: str, tier: str):
         if not q:
             parts.append(Part("closure-N3-setup", P(run_c12, GCfg(N=3, setup=True, indexed=True, combined=True)), {"N": 3, "setup": "first node optionally a setup node, optionally already set up"}, 1500, 5, ["w_error_case"], GRAPH_FUNCS))
     elif pid == "C13":
-        parts.append(Part("debug-N3", P(run_c13, GCfg(N=3, setup=True, activation=True, combined=True)), {"N": 3, "debug placement": "every subset", "modes": "call, executor(target/exclude/root x node), setup"}, 600, 5, ["w_invalid_rejected", "w_debug_ran", "w_debug_with_selection", "w_debug_pulled_in", "w_combined_selection"], GRAPH_FUNCS))
+        parts.append(Part("debug-N3", P(run_c13, GCfg(N=3, setup=True, activation=True, combined=True, failed_before=True)), {"N": 3, "debug placement": "every subset", "modes": "call, executor(target/exclude/root x node), setup; an executor may have had an earlier failing run under the opposite RUN_DEBUG_NODES setting"}, 600, 5, ["w_invalid_rejected", "w_debug_ran", "w_debug_with_selection", "w_debug_pulled_in", "w_combined_selection"], GRAPH_FUNCS))
         parts.append(Part("debug-N4-combined", P(run_c13, GCfg(N=4, setup=False, combined=True, reconf=False)), {"N": 4, "modes": "call, single and combined (root+target, root+exclude) selections"}, 900, 6, ["w_debug_ran", "w_combined_selection"], GRAPH_FUNCS))
         parts.append(Part("debug-N3-async", P(run_c13, GCfg(N=3, setup=True, activation=False, combined=False, reconf=False, flavours="a")), {"N": 3, "flavour": "AsyncDAG", "modes": "call, executor(target/exclude/root x node), setup, setup then call"}, 600, 5, ["w_debug_ran", "w_debug_with_selection"], GRAPH_FUNCS))
         from harness.graph import run_c13_build
